@@ -735,8 +735,18 @@ fn drive_connection(
                 return false;
             }
             Ok(_) => continue,
-            Err(ref e) if would_block(e) => return false,
-            Err(ref e) if interrupted(e) => return drive_connection(conn, wbuf, msgs),
+            Err(ref e) if would_block(e) => {
+                // Nothing was written.  Keep the buffer so that it -- possibly the remainder of a
+                // partially written message -- is the first thing sent when the client is
+                // writable again, instead of being dropped.
+                wbuf.replace(buf);
+                return false;
+            }
+            Err(ref e) if interrupted(e) => {
+                // Same here: put the buffer back and retry the write.
+                wbuf.replace(buf);
+                continue;
+            }
             Err(e) => {
                 error!(?conn, error = %e, "write failed");
                 return true;
